@@ -63,6 +63,10 @@ POW_FAMILIES = [
     ("incbin-size", lambda e: "#d incbin(\"data.bin\", 1, %s)\n" % e),
     ("inchexstr-start", lambda e: "#d inchexstr(\"data.hex\", %s)\n" % e),
     ("string-repeat", lambda e: "x = strlen(\"a\") << %s\n" % e),
+    # the same indices where sizes are computed statically (rule productions)
+    ("slice-left-static", lambda e: "#ruledef\n{\n    t {x} => x[%s:0]\n}\nt 1\n" % e),
+    ("slice-concat-static", lambda e: "#ruledef\n{\n    t {x} => x[%s:0] @ x[%s:0]\n}\nt 1\n" % (e, e)),
+    ("width-suffix-static", lambda e: "#ruledef\n{\n    t {x} => x`(%s)\n}\nt 1\n" % e),
 ]
 
 LIT_FAMILIES = [
@@ -141,8 +145,9 @@ def run_c19(ck):
                 plan.append((name, limit, cycle, m, {"main.asm": gen(m)}, None))
     for name, gen in POW_FAMILIES:
         for k in ks:
-            e = "(1 << %d)" % k
-            plan.append((name, -1, False, k, {"main.asm": gen(e), "data.bin": b"\x01\x02\x03\x04", "data.hex": "0123abcd"}, None))
+            # the power itself and its two neighbours (2^64 - 1 is the largest index type value)
+            for suffix, e in (("", "(1 << %d)" % k), ("-below", "((1 << %d) - 1)" % k), ("-below2", "((1 << %d) - 2)" % k)):
+                plan.append((name + suffix, -1, False, k, {"main.asm": gen(e), "data.bin": b"\x01\x02\x03\x04", "data.hex": "0123abcd"}, None))
     for name, gen in LIT_FAMILIES:
         for n in digs:
             if name == "iters-option":
